@@ -149,6 +149,19 @@ def exc_info(e):
 
 
 # ---- ops ---------------------------------------------------------------------------------------------------
+def has_bare_starred(tree):
+    """a Starred node anywhere but in a display, an argument list or a base list (`if (*a):`, `x: (*a)`): never valid, never printable"""
+    for n in ast.walk(tree):
+        for f, v in ast.iter_fields(n):
+            if isinstance(v, ast.AST) and v.__class__.__name__ == 'Starred':
+                return True
+            if isinstance(v, list) and f not in ('elts', 'args', 'bases'):
+                for x in v:
+                    if isinstance(x, ast.AST) and x.__class__.__name__ == 'Starred':
+                        return True
+    return False
+
+
 def op_rt(case, pm):
     """C02: strict round trip of unparse() and of minify(all transforms off)."""
     src = get_src(case)
@@ -156,12 +169,16 @@ def op_rt(case, pm):
         tree = ast.parse(src)
     except Exception as e:
         return {'status': 'skip', 'reason': 'unparseable'}
+    if has_bare_starred(tree):
+        # not Python: pre-PEG parsers (and 3.9 / 3.10) accept a parenthesised bare starred expression `(*a)`; the compiler rejects it where it looks
+        # (an unevaluated annotation inside a function is never looked at), and nothing can print it
+        return {'status': 'skip', 'reason': 'parser accepts a bare (*a), compiler rejects it'}
     if True:
-        # several parsers (pre-PEG and 3.9 / 3.10) accept a parenthesised bare starred expression `(*a)` that the compiler then rejects
         try:
             compile(src, 'vf_case.py', 'exec', dont_inherit=True)
         except SyntaxError as e:
-            if 'starred' in str(e):
+            # the message names whichever error the compiler meets first; look at the tree as well
+            if 'starred' in str(e) or has_bare_starred(tree):
                 return {'status': 'skip', 'reason': 'parser accepts a bare (*a), compiler rejects it'}
         except Exception:
             pass
